@@ -167,6 +167,29 @@ fn check_path(o: &mut Out, props: &str, scen: &str, seed: u64, sp: &SP, w: &Worl
     }
     if want("C04") { for (k, s) in p.iter().enumerate() { if !sp.satisfies_bounds(s) { o.report(scen, seed, format!("path state #{} {:?} is out of bounds", k, s.values)); break; } } }
     let lvsl = sp.get_longest_valid_segment_length();
+    if want("C03") && p.len() >= 2 {
+        // the statement itself: along every segment the checker was asked about, and accepted, states with no gap longer than the
+        // resolution -- every point of the segment lies within half the resolution of an accepted query (grid over the query log)
+        let cell = lvsl.max(1.0e-6);
+        let mut grid: std::collections::HashMap<(i64, i64), Vec<(f64, f64)>> = std::collections::HashMap::new();
+        for q in w.log.lock().unwrap().iter().filter(|q| q.2) { grid.entry(((q.0 / cell).floor() as i64, (q.1 / cell).floor() as i64)).or_default().push((q.0, q.1)); }
+        let mut tmp = p[0].clone();
+        'segs: for k in 0..p.len() - 1 {
+            let dist = d(sp, &p[k], &p[k + 1]);
+            let n = ((dist / (lvsl * 0.05)).ceil() as usize).clamp(1, 4000);
+            for i in 0..=n {
+                sp.interpolate(&p[k], &p[k + 1], i as f64 / n as f64, &mut tmp);
+                let (x, y) = (tmp.values[0], tmp.values[1]);
+                let (cx, cy) = ((x / cell).floor() as i64, (y / cell).floor() as i64);
+                let mut best = f64::INFINITY;
+                for gx in cx - 1..=cx + 1 { for gy in cy - 1..=cy + 1 { if let Some(v) = grid.get(&(gx, gy)) { for q in v { best = best.min(((q.0 - x).powi(2) + (q.1 - y).powi(2)).sqrt()); } } } }
+                if best > lvsl * 0.5 + 1.0e-9 {
+                    o.report(scen, seed, format!("segment #{} {:?}->{:?}: the point {:?} on it is {} away from the nearest state the checker accepted (resolution {:.4}): the motion was not checked at the space's resolution", k, p[k].values, p[k + 1].values, (x, y), if best.is_finite() { format!("{:.4}", best) } else { "more than the resolution".into() }, lvsl));
+                    break 'segs;
+                }
+            }
+        }
+    }
     for k in 0..p.len() - 1 {
         let dist = d(sp, &p[k], &p[k + 1]);
         if (want("C05") || want("C15")) && dist > limit + 1e-9 { o.report(scen, seed, format!("segment #{} has length {} > configured limit {}", k, dist, limit)); break; }
@@ -320,11 +343,11 @@ fn fam_histories(o: &mut Out, props: &str, seed0: u64, deadline: Instant) {
     let sp = space();
     // ds outermost: every (variant, planner) pair is visited once before any pair is visited a second time (the budget may end early)
     'outer: for ds in 0..3u64 {
-        for variant in 0..12u64 {
+        for variant in 0..15u64 {
             for (pi, pl) in planners().into_iter().enumerate() {
                 if Instant::now() > deadline { break 'outer; }
                 // seeds are a function of the scenario (variants 0-5 keep the seeds they always had)
-                let k = if variant < 6 { (pi as u64 * 6 + variant) * 3 + ds } else if variant == 11 { 700 + pi as u64 * 3 + ds } else if variant < 10 { 300 + (pi as u64 * 4 + (variant - 6)) * 3 + ds } else { 400 + (pi as u64 * 8 + (variant - 10)) * 3 + ds };
+                let k = if variant < 6 { (pi as u64 * 6 + variant) * 3 + ds } else if variant >= 12 { 800 + (pi as u64 * 4 + (variant - 12)) * 3 + ds } else if variant == 11 { 700 + pi as u64 * 3 + ds } else if variant < 10 { 300 + (pi as u64 * 4 + (variant - 6)) * 3 + ds } else { 400 + (pi as u64 * 8 + (variant - 10)) * 3 + ds };
                 let seed = seed0.wrapping_mul(1000) + 500 + k;
                 let (step, radius) = (0.6, 1.2);
                 let w_open = world(3);
@@ -405,6 +428,43 @@ fn fam_histories(o: &mut Out, props: &str, seed0: u64, deadline: Instant) {
                         let wall2 = Arc::new(World { boxes: vec![(4.49, 5.5, 2.0, 10.0)], log: Mutex::new(vec![]) });
                         inst.setup(multi.clone(), wall2.clone());
                         if let Ok(path) = inst.solve(Duration::from_millis(500)) { check_path(o, props, &scen, seed, &sp, &wall2, &multi, &path, Inst::limit(pl, step, radius)); }
+                    }
+                    12 => { // the same planner object on a much LARGER space first, then on the ordinary one with a thin wall: nothing
+                            // derived from the first space (resolution, extent, trees) may survive the second setup
+                        let big: Arc<SP> = Arc::new(RealVectorStateSpace::new(2, Some(vec![(0.0, 1000.0), (0.0, 1000.0)])).unwrap());
+                        let pbig = pd(&big, (100.0, 100.0), (900.0, 800.0 + ds as f64), 30.0);
+                        // (steps well above the resolution of the ordinary space, 0.707: a motion checked at its ends only leaves a gap)
+                        let (step, radius) = (2.0, 2.5);
+                        let mut inst = Inst::new(pl, step, radius, 0.15, seed);
+                        inst.setup(pbig.clone(), w_open.clone()); let _ = inst.solve(Duration::from_millis(150));
+                        inst.setup(p2.clone(), w_wall.clone());
+                        if let Ok(path) = inst.solve(Duration::from_millis(500)) { check_path(o, props, &scen, seed, &sp, &w_wall, &p2, &path, Inst::limit(pl, step, radius)); }
+                    }
+                    13 => { // ... and on the ordinary space first, then on a SMALLER box: the second answer lies in the second box
+                        let small: Arc<SP> = Arc::new(RealVectorStateSpace::new(2, Some(vec![(0.0, 5.0), (0.0, 5.0)])).unwrap());
+                        // (the first problem leaves its trees next to the upper right corner of the small box; the second one runs from
+                        // the lower right to the upper left corner)
+                        let psmall = pd(&small, (4.5, 0.5 + ds as f64 * 0.3), (0.5, 4.5), 0.4);
+                        let pfar = pd(&sp, (4.0, 4.0), (9.0, 9.0 - ds as f64 * 0.5), 0.5);
+                        inst.setup(pfar.clone(), w_open.clone()); let _ = inst.solve(Duration::from_millis(300));
+                        inst.setup(psmall.clone(), w_open.clone());
+                        if let Ok(path) = inst.solve(Duration::from_millis(500)) { check_path(o, props, &scen, seed, &small, &w_open, &psmall, &path, Inst::limit(pl, step, radius)); }
+                    }
+                    14 => { // PRM: a chained query that starts one ulp away from a milestone (where the previous answer ended), and one
+                            // that starts exactly on it: the answer starts at the start state bit for bit
+                        if let Inst::Prm(p) = &mut inst {
+                            let vc: Arc<dyn StateValidityChecker<S>> = w_open.clone();
+                            p.setup(p2.clone(), vc); let _ = p.construct_roadmap();
+                            if let Ok(first) = p.solve(Duration::from_millis(500)) {
+                                let last = first.0[first.0.len() - 1].clone();
+                                for nudge in [1i64, 0, -1] {
+                                    let x = f64::from_bits((last.values[0].to_bits() as i64 + nudge) as u64);
+                                    let chained = pd(&sp, (x, last.values[1]), (9.0, 1.0 + ds as f64), 0.6);
+                                    p.set_problem_definition(chained.clone());
+                                    if let Ok(path) = p.solve(Duration::from_millis(500)) { check_path(o, props, &scen, seed, &sp, &w_open, &chained, &path, radius); }
+                                }
+                            }
+                        }
                     }
                     _ => { // PRM: reuse the roadmap for a new start / goal
                         if let Inst::Prm(p) = &mut inst {
@@ -959,7 +1019,6 @@ fn main() {
     match prop.as_str() {
         "C07" => { fam_prm_determinism(&mut o, seed); fam_determinism(&mut o, seed, deadline); }
         "C01" | "C02" | "C03" | "C04" | "C05" | "C06" | "C15" | "C18" | "C16" | "C17" | "C08" => {
-            let half = Instant::now() + Duration::from_secs_f64(budget / 2.0);
             let p = if prop == "C18" || prop == "C16" || prop == "C17" || prop == "C08" { "all".to_string() } else { prop.clone() };
             if prop == "C06" { fam_deadline(&mut o, seed); }
             if prop == "C04" { let mut r = spaces::Rep { n: 0 }; spaces::fam_convex(&mut r, seed); o.n += r.n; }      // premise of C04: convex regions
@@ -972,6 +1031,8 @@ fn main() {
             if prop == "C05" || prop == "C15" { fam_fields(&mut o, &p, seed); }
             if prop == "C18" || prop == "C01" || prop == "C15" { fam_prm_dense(&mut o, seed); }
             if prop == "C08" || prop == "C06" || prop == "C02" { fam_huge_budget(&mut o, &p, seed); }
+            let half = Instant::now() + Duration::from_secs_f64(budget / 2.0);      // (after the premise families: they do not eat into the histories)
+            let deadline = deadline.max(half + Duration::from_secs_f64(budget / 2.0));
             fam_histories(&mut o, &p, seed, half);
             fam_paths(&mut o, &p, seed, deadline);
             fam_star_dense(&mut o, &p, seed, deadline + Duration::from_secs_f64(budget / 3.0));
